@@ -110,6 +110,10 @@ pub fn run_parts(ctx: &mut Ctx, prop: &'static str) {
         }
         idx += step;
     }
+    // ---- part 3: knapsack, set packing (dynamic order), common subsequence (long arcs) -------
+    let cases = ctx.tier.pick(15_000, 400_000);
+    let strat = crate::families::fam_case_strategy(vec![0, 1, 2], vec![DdKind::Lel, DdKind::Frontier, DdKind::Pooled], false);
+    ctx.pt_run("families", cases, strat, |c| serde_json::to_value(c).unwrap(), |c, obs| crate::props::fam::eval_family(c, obs, prop));
     ctx.stats.exhaustive.insert("table-exhaustive: all 3^12 transition tables (n=3,B=2,nd=2) x 3 cost tables, one rotating configuration each".into(), stride == 1);
 }
 
@@ -118,7 +122,9 @@ fn run(ctx: &mut Ctx) {
 }
 
 pub fn replay_with(part: &str, case: &Value, known: &KnownFindings, prop: &str) -> Verdict {
-    let _ = part;
+    if part == "families" || case.get("fam").is_some() {
+        return crate::props::fam::replay_family(case, prop);
+    }
     match serde_json::from_value::<SolveCase>(case.clone()) {
         Ok(c) => {
             c.t.validate();
